@@ -242,7 +242,8 @@ pub fn gen_replicas(prop: &str, r: &mut Prng, seed: u64, run: u64, thorough: boo
     let forced = std::env::var("HPOSIM_FORCE_FACTS").map_or(false, |v| v == "threshold");
     // at fixed run indices, so that every batch contains them whatever the seed
     let period = if thorough { 60_000 } else { 6_000 };
-    if (prop == "C10" || prop == "C03") && (run % period == period / 2 || forced) {
+    // (offset by the batch index so that the heavy runs land on different workers)
+    if (prop == "C10" || prop == "C03") && (run % period == period / 2 + (run / period) % 16 || forced) {
         return gen_threshold(prop, r, seed, run);
     }
     if matches!(prop, "C01" | "C16" | "C09" | "C02") && (run % (period * 4) == period * 2 + 1 || forced) {
